@@ -8,7 +8,8 @@ on the state variables are decided; everything else forks.  Nothing of the repos
 import ast
 
 from .. import rx
-from ..core import AnalysisError, norm, walk_no_nested
+from .. import normalize
+from ..core import AnalysisError, norm, set_parents, walk_no_nested
 
 M = 'changelog'
 
@@ -25,7 +26,13 @@ class Model:
         rep.saw_func(self.f)
         self.alpha = rx.alphabet('str')
         self.mod = src.mod(M)
-        fn = self.f.node
+        # local closures are inlined (they read the loop's state variables); methods keep their identity: the
+        # diagnostics funnel and the block API are recognised by name
+        local_defs = [n.name for n in self.f.node.body if isinstance(n, ast.FunctionDef)]
+        fn, _inl = normalize.inline_helpers(self.f, only=local_defs)
+        fn = normalize.expand_quantifiers(fn, self.mod)
+        set_parents(fn)
+        self.fnode = fn
         self.consts = {}
         for s in fn.body:
             if isinstance(s, ast.Assign) and isinstance(s.value, ast.Constant) and isinstance(s.value.value, str) \
@@ -143,6 +150,8 @@ class Model:
                 if not b.is_empty():
                     out.append((isinstance(op, ast.NotEq), b))
                 return out
+        if isinstance(t, ast.Name) and t.id in st.get('flags', {}):
+            return [(st['flags'][t.id], L)]
         if isinstance(t, ast.Name) and t.id == 'allow_empty_author':
             if st.get('allow_empty') is None:
                 return [(True, L), (False, L)]
@@ -197,6 +206,17 @@ class Model:
             else:
                 raise Abort('state assigned a non-constant: ' + norm(s))
             return [(st, None)]
+        if isinstance(s, ast.Assign) and len(s.targets) == 1 and isinstance(s.targets[0], ast.Name) \
+                and (isinstance(s.value, (ast.Compare, ast.BoolOp)) or (isinstance(s.value, ast.UnaryOp) and isinstance(s.value.op, ast.Not))
+                     or (isinstance(s.value, ast.Constant) and isinstance(s.value.value, bool))):
+            # a named condition: the state forks on its value (refining the line language like the test itself would)
+            self.scan_uses(s.value, st, s.lineno)
+            out = []
+            for truth, lang in ([(s.value.value, st['L'])] if isinstance(s.value, ast.Constant) else self.cond(s.value, st)):
+                st2 = dict(st, L=lang, effects=list(st['effects']), flags=dict(st.get('flags', {})))
+                st2['flags'][s.targets[0].id] = truth
+                out.append((st2, None))
+            return out
         if isinstance(s, ast.Continue):
             return [(st, 'continue')]
         if isinstance(s, ast.Return):
